@@ -25,6 +25,8 @@ use trust_runtime::Runtime;
 
 #[path = "c05/gen.rs"]
 pub mod gen;
+#[path = "c05/gen_order.rs"]
+pub mod gen_order;
 
 // ------------------------------------------------------------------------------------------------
 // Case description shared by parent and children
@@ -55,6 +57,8 @@ pub struct CaseInput {
     /// (area letter Q|M, first byte, length): image bytes bound only to never-assigned variables
     pub const_ranges: Vec<(char, usize, usize)>,
     pub trace: Vec<Step>,
+    /// what the generator put into the case (histogram only; not part of the case's operation lines)
+    pub tags: Vec<String>,
 }
 
 impl CaseInput {
@@ -100,6 +104,7 @@ impl CaseInput {
             direct_outputs: Vec::new(),
             const_ranges: Vec::new(),
             trace: Vec::new(),
+            tags: Vec::new(),
         };
         for line in text.lines() {
             let ws: Vec<&str> = line.split_whitespace().collect();
@@ -965,6 +970,10 @@ pub fn run_case(n: u64, case: &CaseInput, children: usize, tmp_dir: &std::path::
     let _ = std::fs::remove_file(&file);
     let _ = std::fs::remove_dir_all(&case_root);
 
+    if std::env::var_os("VERIF_C05_SHOW").is_some() {
+        // development aid: the parent's last dump
+        eprintln!("---- case {n}: build_error={:?}\n{}", parent.build_error, parent.cycles.last().cloned().unwrap_or_default());
+    }
     out.line(format!("case {n}"));
     for l in &lines {
         out.line(l);
@@ -1143,6 +1152,10 @@ pub fn run_case(n: u64, case: &CaseInput, children: usize, tmp_dir: &std::path::
     if case.trace.iter().any(|s| s.restart != 0) {
         out.count("cases_with_restart");
     }
+    for t in &case.tags {
+        out.line(format!("tag {t}"));
+        out.count(&format!("gen_{}", t.replace('-', "_")));
+    }
     out.count(&format!("files_{}", case.files.len().min(3)));
     if case.with_paths {
         out.count("cases_with_paths");
@@ -1170,6 +1183,7 @@ pub fn run(args: &Args) -> i32 {
             direct_inputs: vec![],
             direct_outputs: vec![],
             const_ranges: vec![],
+            tags: vec![],
             trace: (0..3).map(|_| Step { dt_ns: 10_000_000, bools: vec![], ints: vec![], restart: 0 }).collect(),
         };
         let obs = observe(&case, Conditions::default());
